@@ -100,9 +100,15 @@ class FinishedPdu(AbstractFileDirectiveBase):
 
     @condition_code.setter
     def condition_code(self, condition_code: ConditionCode):
+        old_condition_code = self._params.condition_code
         self._params.condition_code = condition_code
         # Whether the fault location is packed depends on the condition code
-        self._calculate_directive_field_len()
+        try:
+            self._calculate_directive_field_len()
+        except ValueError:
+            # Too large for the PDU data field length: the PDU stays as it was
+            self._params.condition_code = old_condition_code
+            raise
 
     @property
     def delivery_code(self) -> DeliveryCode:
@@ -142,11 +148,17 @@ class FinishedPdu(AbstractFileDirectiveBase):
         :raises ValueError: TLV type is not a filestore response
         :return:
         """
+        old_responses = self._params.file_store_responses
         if file_store_responses is None:
             self._params.file_store_responses = []
         else:
             self._params.file_store_responses = file_store_responses
-        self._calculate_directive_field_len()
+        try:
+            self._calculate_directive_field_len()
+        except ValueError:
+            # Too large for the PDU data field length: the PDU stays as it was
+            self._params.file_store_responses = old_responses
+            raise
 
     @property
     def file_store_responses_len(self):
@@ -167,8 +179,14 @@ class FinishedPdu(AbstractFileDirectiveBase):
         """Setter function for the fault location.
         :raises ValueError: Type ID is not entity ID (0x06)
         """
+        old_fault_location = self._params.fault_location
         self._params.fault_location = fault_location
-        self._calculate_directive_field_len()
+        try:
+            self._calculate_directive_field_len()
+        except ValueError:
+            # Too large for the PDU data field length: the PDU stays as it was
+            self._params.fault_location = old_fault_location
+            raise
 
     def _calculate_directive_field_len(self):
         base_len = 1
